@@ -120,6 +120,9 @@ def make_body(name, script, rec):
                 elif op == "incr":
                     async with ctx.store.edit_state() as st:
                         st[a[1]] = st.get(a[1], 0) + 1
+                elif op == "return_const":
+                    outcome = "return-StopEvent"
+                    return StopEvent(result=a[1])
                 elif op == "return":
                     cls = a[1]
                     if cls is None:
